@@ -305,4 +305,61 @@ theorem flatMap_ext {l : List α} {f g : α → List β} (h : ∀ a, a ∈ l →
     simp only [List.flatMap_cons]
     rw [h a (by simp), ih (fun b hb => h b (by simp [hb]))]
 
+/-- the guard the extractor found is the one the theorems are about: the short cut fires iff some input is empty -/
+theorem emptyTriggered_eq (sizes : List Nat) : emptyTriggered sizes = sizes.any (· == 0) := rfl
+
+theorem flattenSort_sorted (l : List (Tok α))
+    (h : l.Pairwise (fun a b => a.1.getLast?.getD 0 ≤ b.1.getLast?.getD 0)) : flattenSort l = l := by
+  unfold flattenSort
+  split
+  · exact sortByLast_sorted l h
+  · rfl
+
+theorem lookup_perm {l1 l2 : List (String × α)} (hp : l1.Perm l2) (hn : (l1.map (·.1)).Nodup) (k : String) :
+    l1.lookup k = l2.lookup k := by
+  induction hp with
+  | nil => rfl
+  | cons x _ ih =>
+    obtain ⟨a, b⟩ := x
+    simp only [List.map_cons, List.nodup_cons] at hn
+    simp only [List.lookup]
+    split
+    · rfl
+    · exact ih hn.2
+  | swap x y l =>
+    obtain ⟨a, b⟩ := x
+    obtain ⟨c, d⟩ := y
+    simp only [List.map_cons, List.nodup_cons, List.mem_cons, not_or] at hn
+    have hca : (c == a) = false := by simpa using hn.1.1
+    have hac : (a == c) = false := by simpa using (fun e : a = c => hn.1.1 e.symm)
+    simp only [List.lookup]
+    by_cases h1 : k = c
+    · subst h1; simp [hca]
+    · have h1' : (k == c) = false := by simpa using h1
+      by_cases h2 : k = a
+      · subst h2; simp [hac]
+      · have h2' : (k == a) = false := by simpa using h2
+        simp [h1', h2']
+  | trans h1 _ ih1 ih2 =>
+    rw [ih1 hn]
+    exact ih2 ((h1.map _).nodup_iff.mp hn)
+
+theorem lookup_zip_self : ∀ (names : List String) (vals : List α), names.length = vals.length → names.Nodup →
+    names.map (fun n => (names.zip vals).lookup n) = vals.map some
+  | [], [], _, _ => rfl
+  | [], _ :: _, h, _ => by simp at h
+  | _ :: _, [], h, _ => by simp at h
+  | n :: ns, v :: vs, h, hn => by
+    have hn' := List.nodup_cons.mp hn
+    have ih := lookup_zip_self ns vs (by simpa using h) hn'.2
+    simp only [List.zip_cons_cons, List.map_cons, List.lookup, beq_self_eq_true]
+    congr 1
+    rw [← ih]
+    apply List.map_congr_left
+    intro m hm
+    have : (m == n) = false := by
+      have : m ≠ n := fun e => hn'.1 (e ▸ hm)
+      simpa using this
+    simp [List.lookup, this]
+
 end SFV.CwlOps
